@@ -84,7 +84,7 @@ def withBuf (buf : Option Nat) (data : Str) : Str :=
   | some b => b :: data
   | none => data
 
-/-- lines 269-273: the part of `data` that becomes the chunk and the new `_bufferedCharacter`
+/-- lines 276-280: the part of `data` that becomes the chunk and the new `_bufferedCharacter`
 (`None` unless `len(data) > 1` and the last character is CR or a lead surrogate) -/
 def carve (data : Str) : Str × Option Nat :=
   if data.length > 1 then                                            -- 269
@@ -93,7 +93,14 @@ def carve (data : Str) : Str × Option Nat :=
     | none => (data, none)
   else (data, none)
 
-/-- `readChunk()` (249-285); the Boolean is its return value -/
+/-- lines 269-274 (repair 2906ffb): when `data` is a single CR or lead surrogate, what it means depends on the
+next character, so ONE more `dataStream.read(chunkSize)` is appended (`""` at end of file) -/
+def readOn (data : Str) (source : List Str) : Str × List Str :=
+  match data with
+  | [c] => if isCarry c then (c :: (readSource source).1, (readSource source).2) else (data, source)
+  | _ => (data, source)
+
+/-- `readChunk()` (249-292); the Boolean is its return value -/
 def readChunk (s : St) : St × Bool :=
   let p := positionAt s s.chunkSize                                                        -- 253
   let rd := readSource s.source                                                            -- 259
@@ -101,15 +108,17 @@ def readChunk (s : St) : St × Bool :=
     ({ s with prevNumLines := p.1, prevNumCols := p.2, chunk := [], chunkSize := 0, chunkOffset := 0,
               source := rd.2 }, false)                                                     -- 255-257, 267
   else
-    -- 262-264: data = buffered + data, buffered = None;  269-273: withhold a trailing CR / lead surrogate
-    let cv := carve (withBuf s.buffered rd.1)
-    ({ source := rd.2,
-       chunk := normalise cv.1,                                                            -- 279-282
-       chunkSize := (normalise cv.1).length,                                               -- 283
+    -- 262-264: data = buffered + data, buffered = None;  269-274: a lone CR / lead surrogate reads on;
+    -- 276-280: withhold a trailing CR / lead surrogate
+    let ro := readOn (withBuf s.buffered rd.1) rd.2
+    let cv := carve ro.1
+    ({ source := ro.2,
+       chunk := normalise cv.1,                                                            -- 286-289
+       chunkSize := (normalise cv.1).length,                                               -- 290
        chunkOffset := 0,                                                                   -- 257
-       buffered := cv.2,                                                                   -- 264, 272
+       buffered := cv.2,                                                                   -- 264, 279
        prevNumLines := p.1, prevNumCols := p.2,                                            -- 253
-       errors := s.errors + countInvalid cv.1 }, true)                                     -- 275-276, 287-289
+       errors := s.errors + countInvalid cv.1 }, true)                                     -- 282-283, 294-296
 
 /-- `char()` (234-247): `none` is EOF; `self.chunk[chunkOffset]` can raise IndexError -/
 def charAt (s : St) : Except PyErr (Option Nat × St) :=
